@@ -51,6 +51,15 @@ def run(rep, tier):
                     [("lib/Kernel.tla", "ImpliesIntr(A, th) == Sq(th.h \\ {A}, Imp(A, th.c))",
                       "ImpliesIntr(A, th) == Sq(th.h \\ {A}, th.c)")], ["AllValid", "NoFalse"], wd=wd, workers=1,
                     env={"VECTOR_FILE": wd / "mutant_vectors.ndjson"})
+    # third configuration: small pools around schematic TYPE variables, three rounds
+    vecf = wd / "vectors_focus.ndjson"
+    rf = model_check("C01_Kernel", "C01_Kernel_focus.cfg", wd=wd / "mc", workers=1, env={"VECTOR_FILE": vecf}, timeout=3600)
+    rep.add_mc("C01_Kernel(focus: schematic type variables, 3 rounds)", rf, "C01_Kernel_focus.cfg")
+    if rf.violated:
+        rep.design_violation("C01_Kernel_focus", rf)
+        return
+    with open(vec, "a") as f:
+        f.write(open(vecf).read())
     # second machine: derivations as sequences of steps; exhaustive for 2 steps, simulated deep ones
     rd = model_check("C01_Derive", "C01_Derive_small.cfg", wd=wd / "mc", workers=4, timeout=7200)
     rep.add_mc("C01_Derive(all derivations of 2 steps)", rd, "MaxLen=2")
